@@ -332,9 +332,27 @@ class ConfigManager:
             self._integrate_config_source(config)
 
     def add_config_source(self, config) -> None:
-        """Add the given config source and reload the internal rendering"""
+        """Add the given config source and reload the internal rendering
+
+        If the new source cannot be loaded the manager is left as it was.
+        """
+        attrs = (
+            "original_config_sources",
+            "configs",
+            "config_sources",
+            "rendered_sections",
+            "sections_lookup",
+            "_types",
+        )
+        saved = {attr: getattr(self, attr) for attr in attrs}
         self.original_config_sources += (config,)
-        self.reload()
+        try:
+            self.reload()
+        except BaseException:
+            # reload() builds new containers, the previous ones are untouched
+            for attr, value in saved.items():
+                setattr(self, attr, value)
+            raise
 
     def _integrate_config_source(self, config) -> None:
         """Pull extra type and config sections from configs and use them.
